@@ -19,12 +19,12 @@ _PRIOR_CACHE = {}
 PRIOR_PALETTE = [
     # (poly_trend, n_offsets, k_prior, rv_unit, P unit, means)
     {"poly_trend": 1, "n_offsets": 0, "k_prior": "default", "rv_unit": "km/s", "P_unit": "d", "v0_mean": 0.0, "width": 1.0},
-    {"poly_trend": 2, "n_offsets": 0, "k_prior": "default", "rv_unit": "km/s", "P_unit": "d", "v0_mean": 0.0, "width": 0.8},
+    {"poly_trend": 2, "n_offsets": 0, "k_prior": "default", "rv_unit": "km/s", "P_unit": "d", "v0_mean": 0.0, "width": 0.8, "sigma_K0": 300.0},
     {"poly_trend": 1, "n_offsets": 1, "k_prior": "default", "rv_unit": "km/s", "P_unit": "d", "v0_mean": 0.0, "width": 1.25},
     {"poly_trend": 1, "n_offsets": 0, "k_prior": "normal", "rv_unit": "km/s", "P_unit": "d", "v0_mean": 3.5, "width": 0.6},
     {"poly_trend": 3, "n_offsets": 2, "k_prior": "default", "rv_unit": "m/s", "P_unit": "d", "v0_mean": 0.0, "width": 1.0},
     {"poly_trend": 2, "n_offsets": 0, "k_prior": "normal", "rv_unit": "m/s", "P_unit": "yr", "v0_mean": -120.0, "width": 1.5},
-    {"poly_trend": 1, "n_offsets": 0, "k_prior": "default", "rv_unit": "m/s", "P_unit": "yr", "v0_mean": 0.0, "width": 0.7},
+    {"poly_trend": 1, "n_offsets": 0, "k_prior": "default", "rv_unit": "m/s", "P_unit": "yr", "v0_mean": 0.0, "width": 0.7, "sigma_K0": 300.0},
     {"poly_trend": 2, "n_offsets": 1, "k_prior": "default", "rv_unit": "km/s", "P_unit": "d", "v0_mean": 0.0, "width": 1.1},
 ]
 
@@ -71,7 +71,7 @@ def get_prior(spec):
         prior = tj.JokerPrior.default(
             P_min=Pmin,
             P_max=Pmax,
-            sigma_K0=30.0 * scale * vu,
+            sigma_K0=spec.get("sigma_K0", 30.0) * scale * vu,  # 300 => the max_K cap of the K prior engages for short periods
             sigma_v=sig,
             poly_trend=poly,
             v0_offsets=offs,
@@ -226,9 +226,12 @@ def gen_data_spec(rnd, prior_spec, profile=None):
         "container": "single" if n_src == 1 else rnd.choice(["list", "dict"]),
         "baseline": rnd.choice([10.0, 100.0, 300.0, 1500.0]),
         "t_start": rnd.choice([55000.0, 58123.25, 60000.5]),
-        "rv_unit": prior_spec["rv_unit"],
+        # the data's RV unit need not be the prior's: the helper converts the prior to the data's unit
+        "rv_unit": prior_spec["rv_unit"] if rnd.random() < 0.7 else ("m/s" if prior_spec["rv_unit"] == "km/s" else "km/s"),
         "gen_seed": rnd.getrandbits(48),
         "orbit_from": None,  # [library index, row] for spike/informative, filled by the caller
+        # reference epoch of a single RVData: default (min t), disabled (t_ref=False), or an explicit Time
+        "t_ref_mode": "min" if n_src > 1 else rnd.choice(["min", "min", "min", "min", "false", "explicit"]),
     }
 
 
@@ -246,6 +249,14 @@ def build_data(spec, libraries=None):
     profile = spec["profile"]
     ts = [np.sort(spec["t_start"] + g.uniform(0, spec["baseline"], ne)) for _ in range(n_src)]
     t_ref = min(t.min() for t in ts)
+    mode = spec.get("t_ref_mode", "min")
+    kw_tref = {}
+    if n_src == 1 and mode == "false":
+        kw_tref = {"t_ref": False}
+        t_ref = 0.0
+    elif n_src == 1 and mode == "explicit":
+        t_ref = float(np.floor(t_ref)) - 3.5
+        kw_tref = {"t_ref": Time(t_ref, format="mjd", scale="tcb")}
     amp = 10.0  # km/s
     if profile == "flat":
         err = 1.0e4
@@ -276,6 +287,7 @@ def build_data(spec, libraries=None):
                 t=Time(t, format="mjd", scale="tcb"),
                 rv=rv * scale * vu,
                 rv_err=errs * scale * vu,
+                **kw_tref,
             )
         )
     if spec["container"] == "single":
